@@ -1150,9 +1150,9 @@ func init() {
 		// sides fills both 1000-slot buffers of the comparison pipeline and its workers (threshold 2001 +
 		// jobs). A hang ends in the large-run time limit: "ends in a timeout".
 		{
-			sizes := []int{2002}
+			sizes := []int{2100}
 			if !c.Quick() {
-				sizes = append(sizes, 2100, 2001, 3000)
+				sizes = append(sizes, 2002, 2001, 3000)
 			}
 			for _, n := range sizes {
 				file := filepath.Join(tmp, fmt.Sprintf("tiny-%d.ged", n))
